@@ -452,6 +452,8 @@ void TigaPropertyBuilder::dropClauses()
 
 void TigaPropertyBuilder::property()
 {
+    const auto count = properties.size();
+    created = false;
     // The `under`/`imitate` clauses belong to this query alone: drop them also when no property is
     // created for it, otherwise they would be attached to the next query parsed with this builder.
     try {
@@ -460,6 +462,7 @@ void TigaPropertyBuilder::property()
         dropClauses();
         throw;
     }
+    created = properties.size() > count;
     dropClauses();
 }
 
@@ -473,13 +476,14 @@ void TigaPropertyBuilder::handle_error(const UTAP::TypeException& ex)
 void TigaPropertyBuilder::strategy_declaration(const char* id)
 {
     const std::string name = std::string(id);
+    if (!created)  // the query of the strategy gave no property (its error is reported): there is nothing to name,
+        return;    // properties.back() is the property of an earlier query or does not exist at all.
     if (auto it = declarations.find(name); it != declarations.end()) {
         declarations.erase(it);
         handle_warning(UTAP::DuplicateDefinitionError(name));
     }
     declarations.emplace(name, &properties.back());
-    if (!properties.empty())  // this happens when the model and the query file do not correspond.
-        properties.back().declaration = name;
+    properties.back().declaration = name;
 }
 
 void TigaPropertyBuilder::subjection(const char* id)
